@@ -96,16 +96,20 @@ def minimise(prop, cfg, events, sig, budget_s=20.0, max_execs=1500):
             return False
         return any(v.signature == sig for v in vs)
 
+    def pinned(ev):
+        # programs start with initiate_connection: never minimise that away
+        return ev.get('ev') == 'call' and ev.get('op') in ('initiate_connection', 'initiate_upgrade_connection',
+                                                           'set_local_settings')
+
     cur = list(events)
-    # truncate after the violating step first (everything later is irrelevant)
     n = 2
     while len(cur) >= 2:
         chunk = max(1, len(cur) // n)
         reduced = False
         i = 0
         while i < len(cur):
-            cand = cur[:i] + cur[i + chunk:]
-            if cand and still(cand):
+            cand = cur[:i] + [e for e in cur[i:i + chunk] if pinned(e)] + cur[i + chunk:]
+            if len(cand) < len(cur) and still(cand):
                 cur = cand
                 reduced = True
             else:
@@ -242,6 +246,23 @@ def load_findings(prop):
     return [Finding(d) for d in doc.get('findings', []) if d['property'] == prop]
 
 
+def base_opts(prop):
+    """Avoidance hints: triggers of open findings (any property) are steered
+    around in most runs; one run in ten re-confirms this property's own."""
+    path = os.path.join(VERIF, 'known_findings.json')
+    avoid_all, avoid_own = set(), set()
+    if os.path.exists(path):
+        with open(path) as f:
+            doc = json.load(f)
+        for d in doc.get('findings', []):
+            if d.get('status') == 'open':
+                for tag in d.get('avoid', []):
+                    avoid_all.add(tag)
+                    if d['property'] == prop:
+                        avoid_own.add(tag)
+    return {'avoid_all': sorted(avoid_all), 'avoid_own': sorted(avoid_own)}
+
+
 def run_check(prop, tier, base_seed, workers=None, quiet=False):
     from . import props
     spec = props.SPECS[prop]
@@ -251,7 +272,8 @@ def run_check(prop, tier, base_seed, workers=None, quiet=False):
     workers = workers or min(16, os.cpu_count() or 4)
     findings = load_findings(prop)
     open_findings = [f for f in findings if f.status == 'open']
-    opts = {'tier': tier, 'open_findings': [f.id for f in open_findings]}
+    opts = base_opts(prop)
+    opts['tier'] = tier
     tasks = []
     CH = 25
     for profile, n in plan:
